@@ -98,3 +98,17 @@ def solve__row(self, n, v, i, state, ph, ta):
         "24h energy (Wh)": self._calc_energy(ph, pl[0]),
         "Warnings": w,
     }
+
+
+def sys_init__body(self, n, phase, v, i, state):
+    """initial vectors of the solver for node n: stores as a dict target -> value"""
+    p = self._parents[n]
+    if p == -1:
+        st = DISPATCH("_get_state", n, phase, self._phase_lkup[n])
+    else:
+        st = {"off": [DISPATCH("_get_state", BOUND, phase, self._phase_lkup[BOUND])["off"][0] for BOUND in p]}
+    return {
+        "v": DISPATCH("_get_outp_voltage", n, phase, self._phase_lkup[n]),
+        "i": DISPATCH("_get_inp_current", n, phase, self._phase_lkup[n]),
+        "state": st,
+    }
